@@ -5,6 +5,7 @@ resolver files x schema evolutions x both layouts x repeated regeneration) -> Le
 `regen`, Spec verdict `chk` on the implementation's own output) -> diff -> decide.
 """
 import hashlib
+import os
 import json
 import re
 from collections import Counter
@@ -56,6 +57,21 @@ def emitStruct : NameHelper := .lcFirst
 end GqlgenVerif.Gen.RewriteOffsets
 """
 
+
+FALLBACK_RESERVE = """/- FALLBACK written by checks/c19.py because the extractor did not recognise Reserve / getFile. Spec evaluation only. -/
+namespace GqlgenVerif.Gen.ReserveFacts
+inductive CollisionKey
+  | alias
+  | name
+  deriving DecidableEq, Repr
+def collisionKey : CollisionKey := .alias
+inductive CacheForm
+  | raw
+  | crlfToLf
+  deriving DecidableEq, Repr
+def cacheForm : CacheForm := .raw
+end GqlgenVerif.Gen.ReserveFacts
+"""
 
 FALLBACK_PRUNE = """/- FALLBACK written by checks/c19.py because the extractor did not recognise internal/imports/prune.go. Spec evaluation only. -/
 namespace GqlgenVerif.Gen.PruneFacts
@@ -228,6 +244,15 @@ def classify(o, v, pred):
             cause = "name-taken-by-a-template-import"
         elif imp["alias"] and imp["path"].endswith(imp["alias"]) and imp["alias"] != imp["pkg"]:
             cause = "alias-is-suffix-of-path"
+        elif imp["alias"] and imp["alias"] != imp["pkg"] and (imp["pkg"] in AMBIENT.values() or any(local(i) == imp["pkg"] for i in others)) \
+                and n not in AMBIENT.values() and not any(i["path"] == imp["path"] or local(i) == n for i in others):
+            # `goast "go/ast"`, `mrand "math/rand"` beside "crypto/rand": the alias is free, only the package's real name is taken
+            cause = "aliased-import-whose-package-name-is-taken"
+        elif n in ("_", ".") and any(local(i) == n for i in others) and not any(i["path"] == imp["path"] for i in others):
+            # `_ "embed"` + `_ "image/png"`: imports that bind no name are treated as if they all claimed the name `_` / `.`
+            cause = "second-blank-or-dot-import"
+        elif any(i["path"] == imp["path"] for i in others) and not any(local(i) == n for i in others):
+            cause = "same-path-imported-twice"   # `"os"` + `xos "os"`, both names used
         elif any(i["path"] == imp["path"] or local(i) == n for i in others):
             cause = "clashes-with-another-user-import"
         else:
@@ -284,7 +309,8 @@ def run(ctx):
     ]
     ok_offsets = ctx.extract("RewriteOffsets")
     ok_prune = ctx.extract("PruneFacts")
-    ok_extract = ok_offsets and ok_prune
+    ok_reserve = ctx.extract("ReserveFacts")
+    ok_extract = ok_offsets and ok_prune and ok_reserve
     proved = ok_extract and ctx.prove(props=["GqlgenVerif.Props.C19", "GqlgenVerif.Props.C19Prune"])
     if ok_extract and not proved:
         ctx.cov["proof_failure"] = ctx.proof_failure
@@ -293,7 +319,6 @@ def run(ctx):
         # the source no longer has a shape the translator knows: the regenerated tie is broken (already
         # recorded by ctx.extract). To still look for a failing input, build the driver over the last known
         # constants and judge the implementation's output by the Spec alone (no model prediction).
-        import os
         from lib import vf
         if not ok_offsets:
             with open(os.path.join(vf.LEAN, "GqlgenVerif", "Gen", "RewriteOffsets.lean"), "w") as f:
@@ -301,6 +326,9 @@ def run(ctx):
         if not ok_prune:
             with open(os.path.join(vf.LEAN, "GqlgenVerif", "Gen", "PruneFacts.lean"), "w") as f:
                 f.write(FALLBACK_PRUNE)
+        if not ok_reserve:
+            with open(os.path.join(vf.LEAN, "GqlgenVerif", "Gen", "ReserveFacts.lean"), "w") as f:
+                f.write(FALLBACK_RESERVE)
         rc, so, se = vf.sh(["lake", "build", "driver_c19"], cwd=vf.LEAN, timeout=1800)
         ctx.driver_ok = rc == 0
         ctx.cov.setdefault("obligations", 0)
@@ -308,6 +336,8 @@ def run(ctx):
         spec_only = True
 
     args = ["-tier", ctx.tier, "-seed", ctx.seed]
+    if os.environ.get("VERIF_C19_ONLY"):   # development aid: comma-separated case kinds (directed names, `random`)
+        args += ["-only", os.environ["VERIF_C19_ONLY"]]
     rc, so, se = ctx.harness("c19", args, timeout=2400)
     if rc != 0:
         raise RuntimeError("harness failed: " + se[-3000:])
@@ -438,6 +468,9 @@ def run(ctx):
             nviol += 1
             branch["spec:" + shape["kind"] + ":" + str(shape.get("cause", shape.get("what", "")))] += 1
             spec_fail = True
+            shapes = {f["name"]: f["bytes"] for f in o["before"] if f.get("bytes")}
+            if shapes:   # the byte-level shape of the files as they were on disk (file_before etc. show them in gofmt's LF form)
+                inp["bytes_on_disk"] = shapes
             ctx.violation({"kind": "spec", "violation": v, "shape": shape, "failing_input": inp, "ops": o["ops"], "layout": o["layout"],
                            "case_kind": o["kind"], "seed": o["seed"], "replay": replay,
                            "corresponds_to_model": not div})
